@@ -351,7 +351,8 @@ pub fn configs(thorough: bool) -> Vec<Cfg> {
     let mut v = vec![];
     let mut k = 0u64;
     for strat in [Strat::ErrorCount, Strat::ErrorRatio, Strat::SlowRequestRatio] {
-        let thresholds: Vec<f64> = if strat == Strat::ErrorCount { vec![1.0, 2.0, 2.5, 3.0] } else { vec![0.0, 0.49, 0.5, 0.51, 1.0] };
+        // 1/3, 0.333 and 0.67: ratios of thirds, which differ from their two-decimal rounding
+        let thresholds: Vec<f64> = if strat == Strat::ErrorCount { vec![1.0, 2.0, 2.5, 3.0] } else { vec![0.0, 0.49, 0.5, 0.51, 1.0, 1.0 / 3.0, 0.333, 0.67] };
         for min_request in 0..=4u64 {
             for &threshold in &thresholds {
                 for buckets in [1u32, 2, 4, 3] {
